@@ -91,6 +91,9 @@ func (c *declChecker) check() []error {
 	if c.decl.IsExternal() && len(c.decl.Modes()) != 1 {
 		c.errs = append(c.errs, fmt.Errorf("external predicate must have exactly one mode"))
 	}
+	if c.decl.DeferredPredicate() && len(c.decl.Modes()) != 1 {
+		c.errs = append(c.errs, fmt.Errorf("deferred predicate must have exactly one mode"))
+	}
 	for _, mode := range c.decl.Modes() {
 		if len(mode) != len(p.Args) {
 			c.errs = append(c.errs, fmt.Errorf("in decl %v: mode %v does not match the number of arguments", p, mode))
